@@ -1,10 +1,10 @@
 SPECIFICATION SSpec
 CONSTANTS
-  Vars = {"a", "b", "c"}
+  Vars = {"a", "b"}
   Fams = {"clause", "imply", "amo", "pb"}
   ClauseMax = 2
   AmoSeq = 2
-  AmoMax = 3
+  AmoMax = 2
   AmoPols = {0, 1}
   HeuleKs = {2, 3}
   PbShape = "raw"
@@ -12,7 +12,7 @@ CONSTANTS
   PbPols = {0, 1}
   PbNeg = 1
   PbPos = 2
-  PbBound = 3
+  PbBound = 2
   PbOps = {">=", "<=", ">", "<", "="}
   MaxMgrs = 1
   MaxPosts = 1
